@@ -92,6 +92,9 @@ func genStream(r *kern.Rng, pkg string, maxLen int, fastPct int) scen.StreamSpec
 		if pkg != "flate" {
 			sp.Wrap = pkg
 		}
+		if pkg == "gzip" && r.Pct(50) {
+			sp.WrapFlags = r.Intn(32)
+		}
 		return sp
 	}
 	enc := "std"
